@@ -209,7 +209,7 @@ def edge_variant_db(r):
         alt = r.choice([c for c in "ACGT" if c != seq[L - 1]])
         doc["alleles"][f"{doc['name']}*88.001"] = {"mutations": [[L, f"{seq[L - 1]}>{alt}", "-", "functional"]]}
         y = yaml.safe_dump(doc, sort_keys=False, default_flow_style=None)
-    if r.random() < 0.6:
+    if r.random() < 0.9:
         # an insertion inside a tandem repeat of its own sequence (insCT in CTCT): aligners report it at the leftmost
         # position of the repeat, which is the catalogue position on one strand only
         doc = yaml.safe_load(y)
@@ -240,6 +240,37 @@ def edge_variant_db(r):
             doc["reference"]["seq"] = "".join(seq)
             y = yaml.safe_dump(doc, sort_keys=False, default_flow_style=None)
             break
+    if True:
+        # an allele (*95) with a SILENT insertion inside a tandem repeat and a core SNP a few bases away: reads span both,
+        # the read-phase record has to name the insertion at the catalogue position on either strand
+        doc = yaml.safe_load(y)
+        seq = list(doc["reference"]["seq"])
+        L = len(seq)
+        ents = [e for al in doc["alleles"].values() for e in al["mutations"] if isinstance(e[0], int)]
+        def span_(e):
+            op_ = e[1]
+            w_ = len(op_.split(">")[0]) if ">" in op_ else (len(op_[3:].split("ins")[0]) if op_.startswith("del") else 1)
+            return range(e[0] - 2, e[0] + w_ + 2)
+        used = {q for e in ents for q in span_(e)}
+        lo = L // 2 + 8 if len(doc["structure"]["genes"]) > 1 else 8
+        cand = [q for q in range(lo, L - 24) if all(x not in used for x in range(q - 6, q + 18))]
+        if cand:
+            p0 = r.choice(cand)
+            a_, b_ = r.sample("ACGT", 2)
+            unit = a_ + b_
+            # ...xABAB|y: the repeat ends at the anchor base (1-based p0): the catalogue spells the insertion at the RefSeq-right
+            # end of the repeat (HGVS 3' rule), the leftmost spelling on the - strand only
+            for j_ in range(4):
+                seq[p0 - 4 + j_] = unit[j_ % 2]
+            seq[p0 - 5] = next(c for c in "ACGT" if c not in (unit[0], unit[1]))
+            seq[p0] = next(c for c in "ACGT" if c not in (unit[0], unit[1]))
+            q0 = p0 + 10
+            alt = r.choice([c for c in "ACGT" if c != seq[q0 - 1]])
+            # anchor base (1-based p0) must end a unit: seq[p0-1] == unit[1]
+            doc["reference"]["seq"] = "".join(seq)
+            if seq[p0 - 1] == unit[1] and seq[p0 - 2] == unit[0]:
+                doc["alleles"][f"{doc['name']}*95.001"] = {"mutations": [[p0, "ins" + unit, "-"], [q0, f"{seq[q0 - 1]}>{alt}", "-", "functional"]]}
+                y = yaml.safe_dump(doc, sort_keys=False, default_flow_style=None)
     if r.random() < 0.5:
         # a SNP on the first / last RefSeq base of a gene region (where a fused structure switches between gene and
         # pseudogene): both builds must assign it to the same region
@@ -425,7 +456,7 @@ def tie(ctx):
     d = sim.scratch_dir()
     try:
         gens = [gd for gd in pool if gd["kind"] == "generated"]
-        for k in range(14 if quick else 100):
+        for k in range(24 if quick else 120):
             gd = gens[k % len(gens)]
             genes = load_pair(gd)
             ga = genes[0]
@@ -441,7 +472,15 @@ def tie(ctx):
             # when it sits in a repeat; the read-phase record must name it at the catalogue position in both builds)
             if k % 2 == 0:
                 with_ins = [(a, mi) for a in majors for mi in ga.alleles[a].minors if any(m[1].startswith("ins") for m in sim.copy_variants(ga, a, mi))]
-                if with_ins:
+                def in_repeat(m):
+                    u = m[1][3:]
+                    return m[1].startswith("ins") and (ga[m[0] + 1:m[0] + 1 + len(u)] == u or ga[m[0] - len(u) + 1:m[0] + 1] == u)
+                rep_ins = [(a, mi) for a, mi in with_ins if any(in_repeat(m) for m in sim.copy_variants(ga, a, mi))]
+                if "95" in ga.alleles:
+                    rep_ins = [("95", sorted(ga.alleles["95"].minors)[0])]
+                if rep_ins and ("95" in ga.alleles or r.random() < 0.8):
+                    copies = [r.choice(rep_ins)] * 2
+                elif with_ins:
                     copies = [r.choice(with_ins)] * 2
             elif k % 4 == 1:
                 # ... or carrying an allele with a deletion of several bases (its text is reverse-complemented on the - strand)
